@@ -478,6 +478,7 @@ type Contract struct {
 	NoInline bool   // never inline
 	Family   string // non-empty: pattern contract
 	Decreases map[int]Expr
+	Establishes map[int][]*Clause // checked on loop entry only
 }
 
 type SpecFunc struct {
@@ -587,7 +588,7 @@ func loadContractFile(path string, cs *ContractSet) error {
 			curLemma = nil
 			kind := it[:strings.Index(it, " ")]
 			name := strings.TrimSpace(it[len(kind):])
-			cur = &Contract{Pkg: pkg, File: path, Invs: map[int][]*Clause{}, LoopMods: map[int][]ModLoc{}, Decreases: map[int]Expr{}}
+			cur = &Contract{Pkg: pkg, File: path, Invs: map[int][]*Clause{}, LoopMods: map[int][]ModLoc{}, Decreases: map[int]Expr{}, Establishes: map[int][]*Clause{}}
 			if kind == "func" {
 				cur.Target = pkg + "." + name
 				if _, dup := cs.ByTarget[cur.Target]; dup {
@@ -680,6 +681,13 @@ func loadContractFile(path string, cs *ContractSet) error {
 						return fail(err)
 					}
 					cur.Invs[k] = append(cur.Invs[k], &Clause{Kind: "invariant", Label: label, Tags: tags, Src: b2, E: e, Loop: k, Line: it})
+				case "establishes":
+					label, tags, b2 := parseLabelTags(body)
+					e, err := parseSpecExpr(b2)
+					if err != nil {
+						return fail(err)
+					}
+					cur.Establishes[k] = append(cur.Establishes[k], &Clause{Kind: "establishes", Label: label, Tags: tags, Src: b2, E: e, Loop: k, Line: it})
 				case "modifies":
 					locs, err := parseModLocs(body)
 					if err != nil {
